@@ -218,6 +218,10 @@ static std::vector<C04Task> c04Tasks(const Corpus& c, bool thorough)
             for (int i = 0; i < (int) c.sub.size(); ++i)
                 for (int j = 0; j < (int) c.sub.size(); ++j)
                     t.push_back({'Q', mt, i, j});
+    // every single bit of the 16-bit flags word alone, per typed data class (each bit of an error mask is its own shortcut)
+    for (int cls = 0; cls < 5; ++cls)
+        for (int bit = 0; bit < 16; ++bit)
+            t.push_back({'F', cls, bit, 0});
     return t;
 }
 
@@ -255,6 +259,25 @@ static void runC04Task(W& w, const Corpus& c, const C04Task& t)
     {
         for (int k : c.sub)
             each(ref::buildFrame(t.a ? statH : dataH, {c.A[c.sub[t.b]].m, c.A[c.sub[t.c]].m, c.A[k].m}));
+    }
+    else if (t.part == 'F')
+    {
+        using namespace ref;
+        const uint16_t fl = (uint16_t) (1u << t.b);
+        for (int withData = 0; withData < 2; ++withData)
+        {
+            Bytes body;
+            uint8_t pt = 0;
+            switch (t.a)
+            {
+                case 0: { CanF f; f.flags = fl; f.idword = 0x123; if (withData) { f.dlc = 8; f.dataLen = 8; f.data = patt(8, 1); } body = canPayload(f); pt = PT_CAN; break; }
+                case 1: { CanF f; f.flags = fl; f.idword = 0x55; if (withData) { f.dlc = 9; f.dataLen = 12; f.data = patt(12, 2); } body = canPayload(f); pt = PT_CANFD; break; }
+                case 2: { LinF f; f.flags = fl; f.pid = 0x21; if (withData) { f.dataLen = 8; f.data = patt(8, 4); } body = linPayload(f); pt = PT_LIN; break; }
+                case 3: { EthF f; f.flags = fl; if (withData) { f.dataLen = 46; f.data = patt(46, 7); } body = ethPayload(f); pt = PT_ETH; break; }
+                default: { AnalogF f; f.flags = fl; if (withData) f.samples = patt(8, 5); body = analogPayload(f); pt = PT_ANALOG; break; }
+            }
+            each(ref::buildFrame(dataH, {ref::mkMsg(pt, body, 0, 0x0102030405060708ull, 0xA1B2C3D4u)}));
+        }
     }
     else
     {
@@ -1111,6 +1134,13 @@ static void c03Buffers(int cls, size_t len, Fn fn)
                     set(b, 15, (uint64_t) dl, 1);
                     fn(b);
                 }
+        if (cls <= 3 && bg == 0 && len >= hdr)   // every single flag bit alone on an otherwise consistent zero payload
+            for (int bit = 0; bit < 16; ++bit)
+            {
+                Bytes b = base;
+                set(b, 0, 1u << bit, 2);
+                fn(b);
+            }
         else if (cls == 2)   // LIN
             for (int fl = 0; fl < 2; ++fl)
                 for (long dl : lenValues((long) len - (long) hdr, 1))
@@ -1315,7 +1345,7 @@ int main(int argc, char** argv)
             w.add(mc::C_STATES, 1);
         });
         auto tasks = c04Tasks(corpus, thorough);
-        for (char part : {'H', 'P', 'T', 'Q'})
+        for (char part : {'H', 'F', 'P', 'T', 'Q'})
         {
             std::vector<C04Task> ts;
             for (auto& t : tasks)
@@ -1323,7 +1353,7 @@ int main(int argc, char** argv)
                     ts.push_back(t);
             if (ts.empty())
                 continue;
-            const char* nm = part == 'H' ? "header sweep x {0,1} message" : (part == 'P' ? "all ordered message pairs" : (part == 'T' ? "all triples over the sub-alphabet" : "all quadruples over the sub-alphabet"));
+            const char* nm = part == 'H' ? "header sweep x {0,1} message" : part == 'F' ? "every single flag bit alone x 5 typed data classes" : (part == 'P' ? "all ordered message pairs" : (part == 'T' ? "all triples over the sub-alphabet" : "all quadruples over the sub-alphabet"));
             run.round(nm, ts.size(), [&, ts](W& w, uint64_t o) { runC04Task(w, corpus, ts[o]); });
         }
         return run.finish();
